@@ -22,7 +22,7 @@ def _evaluate_expression(obj, selector):
     for items, value in iterpath(obj):
         path = '.'.join(items)
 
-        if path == selector and value:
+        if path == selector:
             return [value]
 
     return []
